@@ -19,7 +19,7 @@ MIN_BUDGET = {"quick": 20, "thorough": 60}
 RULE = ("tables with 1-3 snapshots and 1-4 data files in the current one (local and CAS-S3); for ONE file reachable from "
         "the current snapshot (current metadata file, manifest list, each manifest, each data file) and ONE damage "
         "(delete; truncate to 0 / 3 / 10 / 25% / 50% / start of footer / len-8 / len-1 bytes; whole-file noise; single "
-        "byte flips at 7 positions; content swapped with a sibling of the same kind) every read API and option is "
+        "byte flips at 7 positions and inside the words 'parquet' / 'data/' / 'manifest_' of an entry; content swapped with a sibling of the same kind) every read API and option is "
         "run through a fresh handle: scan, scan(parallel=2), scan_batches(1|3|1000), iter_records, row_count, column "
         "projection, filter, verify_checksums True / False / env-off - once through fresh handles and once through ONE "
         "long-lived handle that had read the table before the damage. Separately, an exception is injected at each "
@@ -47,7 +47,8 @@ APIS: List[Dict[str, Any]] = [
     {"api": "iter_records", "verify": False}, {"api": "scan", "env_verify_off": True},
 ]
 DAMAGES = ["delete", "trunc0", "trunc3", "trunc10", "trunc25", "trunc50", "truncfoot", "trunc_m8", "trunc_m1", "noise",
-           "flip0", "flip5", "flip25", "flip50", "flip75", "flip_m5", "flip_m1", "swap"]
+           "flip0", "flip5", "flip25", "flip50", "flip75", "flip_m5", "flip_m1", "swap", "flipword:parquet",
+           "flipword:parquet", "flipword:data/", "flipword:manifest_"]
 
 
 def gen(rng: random.Random, tier: str, idx: int) -> dict:
@@ -99,6 +100,14 @@ def _damaged(data: bytes, how: str, sibling: Optional[bytes]) -> Optional[bytes]
         return data[: max(0, min(n, k))]
     if how == "noise":
         return bytes((i * 73 + 29) % 256 for i in range(max(16, n)))
+    if how.startswith("flipword:"):
+        word = how.split(":", 1)[1].encode()
+        i = data.rfind(word)
+        if i < 0:
+            return data
+        b = bytearray(data)
+        b[i + len(word) // 2] ^= 0x03
+        return bytes(b)
     if how.startswith("flip"):
         pos = {"flip0": 0, "flip5": 5, "flip25": n // 4, "flip50": n // 2, "flip75": 3 * n // 4, "flip_m5": n - 5,
                "flip_m1": n - 1}[how]
@@ -139,7 +148,18 @@ def _parses(kind: str, new: Optional[bytes]) -> bool:
             return isinstance(d, dict) and "snapshots" in d
         if kind in ("MLIST", "MANIFEST"):
             import fastavro
-            list(fastavro.reader(io.BytesIO(new)))
+            recs = list(fastavro.reader(io.BytesIO(new)))
+            # "parses" = the container decodes AND every entry is a valid entry of the format (an entry with an
+            # unknown file format / non-string path is not a manifest entry any reader can honour)
+            for rec in recs:
+                if kind == "MANIFEST":
+                    df = rec["data_file"]
+                    if df["file_format"] not in ("parquet", "avro", "orc") or not isinstance(df["file_path"], str) \
+                            or not isinstance(df["record_count"], int) or rec["status"] not in (0, 1, 2):
+                        return False
+                else:
+                    if not isinstance(rec["manifest_path"], str) or rec["content"] not in (0, 1):
+                        return False
             return True
         import pyarrow.parquet as pq
         pq.read_table(io.BytesIO(new))
